@@ -11,6 +11,7 @@ use rayon::Scope;
 
 use crate::log::{Log, LogExt};
 use crate::path::Path;
+use crate::rlimit::RLIMIT_OPEN_FILES;
 use crate::selector::PathSelector;
 
 #[derive(Clone, Copy, Debug, PartialEq, Eq)]
@@ -526,22 +527,29 @@ impl<'a> Walk<'a> {
             return;
         }
 
+        // Every thread of the walk that is reading a directory keeps a descriptor open.
+        // They count against the same limit as the files opened for hashing later. Without
+        // a permit, more threads than descriptors would mean directories that cannot be read.
+        let open_files_guard = RLIMIT_OPEN_FILES.clone().access_owned();
         let gitignore = if self.no_ignore {
             gitignore
         } else {
             gitignore.push(&path, self.log)
         };
-
-        match fs::read_dir(path.to_path_buf()) {
-            Ok(rd) => {
-                for entry in self.sorted_entries(path, rd) {
-                    let gitignore = gitignore.clone();
-                    scope.spawn(move |s| {
-                        self.visit_entry(entry, dev, s, level + 1, gitignore, state)
-                    })
-                }
+        let entries = match fs::read_dir(path.to_path_buf()) {
+            Ok(rd) => self.sorted_entries(path, rd).collect::<Vec<_>>(),
+            Err(e) => {
+                self.log_warn(format!("Failed to read dir {}: {}", path.display(), e));
+                vec![]
             }
-            Err(e) => self.log_warn(format!("Failed to read dir {}: {}", path.display(), e)),
+        };
+        // The directory is closed now. The entries are visited without the permit,
+        // the visits take permits of their own.
+        drop(open_files_guard);
+
+        for entry in entries {
+            let gitignore = gitignore.clone();
+            scope.spawn(move |s| self.visit_entry(entry, dev, s, level + 1, gitignore, state))
         }
     }
 
